@@ -198,9 +198,77 @@ func c17(x *ctx) {
 			}
 		}
 	}
+	// overloaded block methods (a generated class Bkc): the first declaration takes no block, only the second
+	// declares block_parameters (the shape of Dir.glob / Dir.chdir in the shipped configuration); 0-1 positional
+	// arguments; the call is written with and without parentheses, with do/end and braces
+	nCore := len(progs)
+	bk := gen.CfgClass{Frame: "Builtin", Class: "Bkc"}
+	type bkMeth struct {
+		name   string
+		args   []gen.CfgArg
+		bp     []string
+		want   []string
+		argLit string
+	}
+	bkms := []bkMeth{
+		{"scan", []gen.CfgArg{{Type: []string{"String"}}}, []string{"String"}, []string{"String"}, "\"x\""},
+		{"walk", []gen.CfgArg{{Type: []string{"DefaultString"}}}, []string{"Int", "String"}, []string{"Integer", "String"}, "\"x\""},
+		{"tick", []gen.CfgArg{}, []string{"Float"}, []string{"Float"}, ""},
+		{"pick", []gen.CfgArg{{Type: []string{"Int"}}, {Type: []string{"DefaultInt"}}}, []string{"Symbol"}, []string{"Symbol"}, "1"},
+	}
+	for _, m := range bkms {
+		bk.ClassMethods = append(bk.ClassMethods,
+			gen.CfgMethod{Name: m.name, Arguments: m.args, ReturnType: gen.CfgRet{Type: []string{"Int"}}},
+			gen.CfgMethod{Name: m.name, Arguments: m.args, ReturnType: gen.CfgRet{Type: []string{"NilClass"}}, BlockParameters: m.bp})
+	}
+	bkFiles := gen.Merge(core, map[string]string{"bkc.json": bk.JSON()})
+	x.pool.NewCfgDir("c17-bk", bkFiles)
+	for _, m := range bkms {
+		forms := map[string][]string{"scan": {"args"}, "walk": {"none", "empty", "args"}, "tick": {"none", "empty"}, "pick": {"args"}}[m.name]
+		for _, parens := range forms {
+			callArgs := map[string]string{"none": "", "empty": "()", "args": "(" + m.argLit + ")"}[parens]
+			for nv := 1; nv <= len(m.bp)+1; nv++ {
+				for _, form := range []string{"do", "brace"} {
+					for _, shadow := range []bool{false, true} {
+						var sb strings.Builder
+						row := 0
+						var probes []probe
+						line := func(s string) { sb.WriteString(s + "\n"); row++ }
+						vars := append([]string{}, pnames[:nv]...)
+						outer := "zo"
+						if shadow {
+							outer = vars[0]
+						}
+						line(outer + " = 1.5")
+						open, close := " do", "end"
+						if form == "brace" {
+							open, close = " {", "}"
+						}
+						line("Bkc." + m.name + callArgs + open + " |" + strings.Join(vars, ", ") + "|")
+						for i, v := range vars {
+							line("dbtp " + v)
+							if i < len(m.want) {
+								probes = append(probes, probe{row, m.want[i], "param"})
+							} else {
+								probes = append(probes, probe{row, "NilClass", "surplus-param"})
+							}
+						}
+						line(close)
+						line("dbtp " + outer)
+						probes = append(probes, probe{row, "Float", "outer-var-after"})
+						progs = append(progs, prog{sb.String(), probes, fmt.Sprintf("Bkc.%s[overloaded]:parens=%s:nv=%d:%s:shadow=%v:none", m.name, parens, nv, form, shadow)})
+					}
+				}
+			}
+		}
+	}
 	cases := make([]*engine.Case, len(progs))
 	for i, p := range progs {
-		cases[i] = &engine.Case{Cfg: "core", Files: map[string]string{"t.rb": p.src}, Argv: []string{"t.rb"}}
+		cfgName := "core"
+		if i >= nCore {
+			cfgName = "c17-bk"
+		}
+		cases[i] = &engine.Case{Cfg: cfgName, Files: map[string]string{"t.rb": p.src}, Argv: []string{"t.rb"}}
 	}
 	res := x.pool.RunAll(cases)
 	type viol struct {
@@ -221,7 +289,7 @@ func c17(x *ctx) {
 		}
 		r.Outcome(rr.Stdout)
 		if i%61 == 0 {
-			recs = append(recs, execRec{"core", cases[i].Files, cases[i].Argv, rr.Stdout})
+			recs = append(recs, execRec{cases[i].Cfg, cases[i].Files, cases[i].Argv, rr.Stdout})
 		}
 		got := map[int]string{}
 		for _, l := range strings.Split(strings.TrimSuffix(rr.Stdout, "\n"), "\n") {
@@ -270,7 +338,7 @@ func c17(x *ctx) {
 				continue
 			}
 			budget--
-			rr := x.realStable("core", cases[v.idx].Files, cases[v.idx].Argv)
+			rr := x.realStable(cases[v.idx].Cfg, cases[v.idx].Files, cases[v.idx].Argv)
 			if rr.Stdout != res[v.idx].Stdout {
 				r.Unconfirmed = append(r.Unconfirmed, s+" (real binary prints something else)")
 				continue
@@ -280,7 +348,8 @@ func c17(x *ctx) {
 		for i := range vs {
 			if i == 0 {
 				r.Report(s, fmt.Sprintf("%s (%d programs): %s", s, len(vs), v.desc),
-					ReplayDoc{Cfg: "inline", Files: cases[v.idx].Files, Argv: cases[v.idx].Argv, Observed: head(res[v.idx].Stdout, 1200), Expected: v.desc, Note: "configuration: the 21 core files of /repo/test/.ti-config"})
+					ReplayDoc{Cfg: "inline", CfgFiles: map[string]map[string]string{"core": nil, "c17-bk": {"bkc.json": bk.JSON()}}[cases[v.idx].Cfg], Files: cases[v.idx].Files, Argv: cases[v.idx].Argv,
+						Observed: head(res[v.idx].Stdout, 1200), Expected: v.desc, Note: "configuration: the listed files (if any) plus the 21 core configuration files of /repo/test/.ti-config"})
 			} else {
 				r.Report(s, "", nil)
 			}
